@@ -191,6 +191,7 @@ theorem C12_mul_comm (x y : BOp (XQ f)) : BOp.mul x y = BOp.mul y x := by
   unfold BOp.mul
   simp only [XQ.mul_comm' y.a x.a, XQ.mul_comm' y.b x.b, XQ.mul_comm' y.d x.d, XQ.mul_comm' y.u x.u,
     XQ.add_comm' y.d x.d,
+    XQ.add_comm' (Scalar.one - y.a) (Scalar.one - x.a), XQ.mul_comm' (Scalar.one - y.a) (Scalar.one - x.a),
     XQ.add_comm' ((Scalar.one - y.a) * x.a * y.b * x.u) ((Scalar.one - x.a) * y.a * x.b * y.u),
     XQ.add_comm' ((Scalar.one - x.a) * y.b * x.u) ((Scalar.one - y.a) * x.b * y.u)]
 
